@@ -68,6 +68,8 @@ func RegistryTaken() [][2]uint32 {
 func NewPoolArgs() ([]ref.Field, [][2]uint32) {
 	// (the long fixed-length octet arrays are left out: three records of them exceed a message)
 	known := append(append([]ref.Field{}, RegistryFields()...), UserFields()[:int(ref.NumTypes)+100]...)
+	// and a string element declared with a fixed length: on the wire exactly that many bytes
+	known = append(known, FixedString)
 	return known, RegistryTaken()
 }
 
